@@ -338,6 +338,65 @@ func main() {
 				e.Strs("unquotePrefixConds", conds(f, fd.Body), "unquotePrefix: conditions in source order")
 			}
 		}
+		// who passes which case-sensitivity flag: the calls of the value parsers inside parseSeqQLFieldFilter / parseFilterIn,
+		// the override for the builtin `_exists_` field, and the legacy builder's per-rune case mapping
+		if f, err := r.Load("parser/seqql_filter.go"); err != nil {
+			e.Missing("caseFlagCalls", err)
+		} else {
+			var calls []string
+			for _, fn := range []string{"parseSeqQLFieldFilter", "parseFilterIn"} {
+				fd := f.Func("", fn)
+				if fd == nil {
+					calls = append(calls, fn+": not found")
+					continue
+				}
+				var ps []string
+				for _, fl := range fd.Type.Params.List {
+					for _, n := range fl.Names {
+						ps = append(ps, n.Name)
+					}
+				}
+				calls = append(calls, fn+"("+strings.Join(ps, ", ")+")")
+				ast.Inspect(fd.Body, func(n ast.Node) bool {
+					if c, ok := n.(*ast.CallExpr); ok {
+						name := f.Render(c.Fun)
+						if name == "parseFilterIn" || name == "parseFulltextSearchFilter" || name == "parseSeqQLTokenRange" {
+							calls = append(calls, "  "+f.Render(c))
+						}
+					}
+					return true
+				})
+			}
+			e.Strs("caseFlagCalls", calls, "parameters of parseSeqQLFieldFilter / parseFilterIn and the value-parser calls they make")
+			if fd := f.Func("", "parseSeqQLFieldFilter"); fd != nil {
+				var ov []string
+				ast.Inspect(fd.Body, func(n ast.Node) bool {
+					switch v := n.(type) {
+					case *ast.AssignStmt:
+						if strings.Contains(f.Render(v.Lhs[0]), "caseSensitive") {
+							ov = append(ov, f.Render(v))
+						}
+					case *ast.IfStmt:
+						if strings.Contains(f.Render(v.Cond), "TokenExists") {
+							ov = append(ov, "if "+f.Render(v.Cond))
+						}
+					}
+					return true
+				})
+				e.Strs("caseFlagOverride", ov, "parseSeqQLFieldFilter: how caseSensitive is computed")
+			}
+		}
+		if f, err := r.Load("parser/term_builder.go"); err != nil {
+			e.Missing("appendRuneInternalBody", err)
+		} else if fd := f.Func("baseTokenBuilder", "appendRuneInternal"); fd == nil {
+			e.Missing("appendRuneInternalBody", "appendRuneInternal not found")
+		} else {
+			var st []string
+			for _, x := range fd.Body.List {
+				st = append(st, f.Render(x))
+			}
+			e.Strs("appendRuneInternalBody", st, "baseTokenBuilder.appendRuneInternal: statements")
+		}
 		// The switch is looked for in every function of the file; the flags the driver needs are ALWAYS emitted (conservative
 		// default when the shape is not recognised, plus a Missing marker), so that a restructured source still lets the
 		// harness run and search for a failing input.
